@@ -88,6 +88,10 @@ RowChroms(rows) == { rows[n].c : n \in DOMAIN rows }
 
 ZeroErrors(e) == e.sw = 0 /\ e.sfs = 0 /\ e.sff = 0 /\ e.ham = 0 /\ e.dg = 0
 
+(* Every invariant has the form  "for all tuples of files: guard => body".  G..(fs, ..) is the guard (which commands
+   wrote the files and how they are related), W..(fs, S) the invariant over the instances that touch S, Live(name, fs)
+   says that an instance exists (used to emit workflows that exercise an invariant and to show non-vacuity). *)
+
 (* ---- W1  stats(unphase(f)): nothing phased; heterozygous / variant counts as for f ---- *)
 NothingPhased(st) == /\ \A n \in DOMAIN st.rows : /\ st.rows[n].phased = 0 /\ st.rows[n].blocks = 0 /\ st.rows[n].singletons = 0
                                                   /\ st.rows[n].unphased = st.rows[n].het
@@ -97,12 +101,11 @@ SameCounts(st, su) == /\ RowChroms(st.rows) = RowChroms(su.rows)
                             /\ RowOf(st.rows, k).variants = RowOf(su.rows, k).variants
                             /\ RowOf(st.rows, k).het = RowOf(su.rows, k).het
                             /\ RowOf(st.rows, k).hetsnvs = RowOf(su.rows, k).hetsnvs
-W1a(fs, S) == \A r \in DOMAIN fs : (r \in S /\ Is(fs, r, "stats", "stats") /\ fs[Arg(fs, r, 1)].cmd = "unphase") => NothingPhased(fs[r].c)
-W1b(fs, S) == \A r, q \in DOMAIN fs :
-    (/\ Touches(S, {r, q})
-     /\ Is(fs, r, "stats", "stats") /\ Is(fs, q, "stats", "stats") /\ fs[r].opt.smp = fs[q].opt.smp
-     /\ fs[Arg(fs, r, 1)].cmd = "unphase" /\ Arg(fs, Arg(fs, r, 1), 1) = Arg(fs, q, 1))
-    => SameCounts(fs[r].c, fs[q].c)
+G1a(fs, r) == Is(fs, r, "stats", "stats") /\ fs[Arg(fs, r, 1)].cmd = "unphase"
+W1a(fs, S) == \A r \in DOMAIN fs : (r \in S /\ G1a(fs, r)) => NothingPhased(fs[r].c)
+G1b(fs, r, q) == /\ G1a(fs, r) /\ Is(fs, q, "stats", "stats") /\ fs[r].opt.smp = fs[q].opt.smp
+                 /\ Arg(fs, Arg(fs, r, 1), 1) = Arg(fs, q, 1)
+W1b(fs, S) == \A r, q \in DOMAIN fs : (Touches(S, {r, q}) /\ G1b(fs, r, q)) => SameCounts(fs[r].c, fs[q].c)
 
 (* ---- W2  compare(f, f): no errors; what is compared is what stats(f) calls phased ---- *)
 SelfClean(cm) == \A n \in DOMAIN cm.rows : ZeroErrors(cm.rows[n].all) /\ ZeroErrors(cm.rows[n].lg)
@@ -114,32 +117,26 @@ ComparedIsPhased(cm, st) ==
               r == RowOf(st.rows, k) IN
           /\ a.nblk = r.blocks /\ a.cov = r.phased /\ a.pairs = r.phased - r.blocks
           /\ RowOf(cm.rows, k).lg.pairs = (IF BlockSizesOn(st, k) = {} THEN 0 ELSE MaxSet(BlockSizesOn(st, k)) - 1)
-W2a(fs, S) == \A r \in DOMAIN fs : (r \in S /\ Is(fs, r, "cmp", "compare") /\ Arg(fs, r, 1) = Arg(fs, r, 2)) => SelfClean(fs[r].c)
-W2b(fs, S) == \A r, q \in DOMAIN fs :
-    (/\ Touches(S, {r, q})
-     /\ Is(fs, r, "cmp", "compare") /\ Arg(fs, r, 1) = Arg(fs, r, 2)
-     /\ Is(fs, q, "stats", "stats") /\ Arg(fs, q, 1) = Arg(fs, r, 1) /\ fs[q].opt.smp = fs[r].opt.smp)
-    => ComparedIsPhased(fs[r].c, fs[q].c)
+G2a(fs, r) == Is(fs, r, "cmp", "compare") /\ Arg(fs, r, 1) = Arg(fs, r, 2)
+W2a(fs, S) == \A r \in DOMAIN fs : (r \in S /\ G2a(fs, r)) => SelfClean(fs[r].c)
+G2b(fs, r, q) == G2a(fs, r) /\ Is(fs, q, "stats", "stats") /\ Arg(fs, q, 1) = Arg(fs, r, 1) /\ fs[q].opt.smp = fs[r].opt.smp
+W2b(fs, S) == \A r, q \in DOMAIN fs : (Touches(S, {r, q}) /\ G2b(fs, r, q)) => ComparedIsPhased(fs[r].c, fs[q].c)
 
 (* ---- W3  --tag PS and --tag HP describe the same phasing ---- *)
 TagPair(fs, p, h) == /\ Is(fs, p, "vcf", "phase") /\ Is(fs, h, "vcf", "phase")
                      /\ fs[p].opt.tag = "PS" /\ fs[h].opt.tag = "HP" /\ Arg(fs, p, 1) = Arg(fs, h, 1)
 W3a(fs, S) == \A p, h \in DOMAIN fs : (Touches(S, {p, h}) /\ TagPair(fs, p, h)) => SameStatements(fs[p].c, fs[h].c)
-W3b(fs, S) == \A r \in DOMAIN fs :
-    (/\ r \in S /\ Is(fs, r, "cmp", "compare")
-     /\ (TagPair(fs, Arg(fs, r, 1), Arg(fs, r, 2)) \/ TagPair(fs, Arg(fs, r, 2), Arg(fs, r, 1))))
-    => SelfClean(fs[r].c)
-(* ... with the same intersection blocks: those of either file *)
-W3c(fs, S) == \A r, q \in DOMAIN fs :
-    (/\ Touches(S, {r, q}) /\ Is(fs, r, "cmp", "compare") /\ Is(fs, q, "stats", "stats") /\ fs[q].opt.smp = fs[r].opt.smp
-     /\ (TagPair(fs, Arg(fs, r, 1), Arg(fs, r, 2)) \/ TagPair(fs, Arg(fs, r, 2), Arg(fs, r, 1)))
-     /\ Arg(fs, q, 1) \in {Arg(fs, r, 1), Arg(fs, r, 2)})
-    => ComparedIsPhased(fs[r].c, fs[q].c)
+G3b(fs, r) == /\ Is(fs, r, "cmp", "compare")
+              /\ (TagPair(fs, Arg(fs, r, 1), Arg(fs, r, 2)) \/ TagPair(fs, Arg(fs, r, 2), Arg(fs, r, 1)))
+W3b(fs, S) == \A r \in DOMAIN fs : (r \in S /\ G3b(fs, r)) => SelfClean(fs[r].c)
+(* ... with the same intersection blocks: the blocks of either file *)
+G3c(fs, r, q) == /\ G3b(fs, r) /\ Is(fs, q, "stats", "stats") /\ fs[q].opt.smp = fs[r].opt.smp
+                 /\ Arg(fs, q, 1) \in {Arg(fs, r, 1), Arg(fs, r, 2)}
+W3c(fs, S) == \A r, q \in DOMAIN fs : (Touches(S, {r, q}) /\ G3c(fs, r, q)) => ComparedIsPhased(fs[r].c, fs[q].c)
 SameReport(st, su) == st.rows = su.rows /\ st.blist = su.blist
-W3d(fs, S) == \A r, q \in DOMAIN fs :
-    (/\ Touches(S, {r, q}) /\ Is(fs, r, "stats", "stats") /\ Is(fs, q, "stats", "stats") /\ fs[q].opt.smp = fs[r].opt.smp
-     /\ TagPair(fs, Arg(fs, r, 1), Arg(fs, q, 1)))
-    => SameReport(fs[r].c, fs[q].c)
+G3d(fs, r, q) == /\ Is(fs, r, "stats", "stats") /\ Is(fs, q, "stats", "stats") /\ fs[q].opt.smp = fs[r].opt.smp
+                 /\ TagPair(fs, Arg(fs, r, 1), Arg(fs, q, 1))
+W3d(fs, S) == \A r, q \in DOMAIN fs : (Touches(S, {r, q}) /\ G3d(fs, r, q)) => SameReport(fs[r].c, fs[q].c)
 
 (* ---- W4  the phase sets named on tagged reads / in the haplotag list are blocks of stats(f),
             and the read (its name group) reaches into the block's extent ---- *)
@@ -153,15 +150,13 @@ TagsNameBlocks(bam, st, s) ==
              \E m \in DOMAIN bam : /\ bam[m].name = bam[n].name /\ bam[m].smp = s /\ bam[m].chr = bam[n].chr
                                    /\ bam[m].s < BlockLine(st, bam[n].chr, bam[n].ps)[4]
                                    /\ bam[m].e >= BlockLine(st, bam[n].chr, bam[n].ps)[3]
-W4a(fs, S) == \A b, q \in DOMAIN fs :
-    (/\ Touches(S, {b, q}) /\ Is(fs, b, "bam", "haplotag") /\ Is(fs, q, "stats", "stats") /\ Arg(fs, q, 1) = Arg(fs, b, 1))
-    => TagsNameBlocks(fs[b].c, fs[q].c, fs[q].opt.smp)
+G4a(fs, b, q) == Is(fs, b, "bam", "haplotag") /\ Is(fs, q, "stats", "stats") /\ Arg(fs, q, 1) = Arg(fs, b, 1)
+W4a(fs, S) == \A b, q \in DOMAIN fs : (Touches(S, {b, q}) /\ G4a(fs, b, q)) => TagsNameBlocks(fs[b].c, fs[q].c, fs[q].opt.smp)
 (* the list written next to the BAM says what the tags say, row by row (all alignments here are primary) *)
 ListOfBam(bam) == [n \in DOMAIN bam |-> [name |-> bam[n].name, hap |-> IF bam[n].hp = Absent THEN 0 ELSE bam[n].hp,
                                           ps |-> IF bam[n].hp = Absent THEN 0 ELSE bam[n].ps, chr |-> bam[n].chr]]
-W4b(fs, S) == \A b, l \in DOMAIN fs :
-    (/\ Touches(S, {b, l}) /\ Is(fs, b, "bam", "haplotag") /\ Is(fs, l, "list", "haplotag") /\ fs[b].args = fs[l].args)
-    => fs[l].c = ListOfBam(fs[b].c)
+G4b(fs, b, l) == Is(fs, b, "bam", "haplotag") /\ Is(fs, l, "list", "haplotag") /\ fs[b].args = fs[l].args
+W4b(fs, S) == \A b, l \in DOMAIN fs : (Touches(S, {b, l}) /\ G4b(fs, b, l)) => fs[l].c = ListOfBam(fs[b].c)
 
 (* ---- W5  split(bam, list): every record goes to the output its list rows name; histogram adds up ---- *)
 SplitReads(bam) == [n \in DOMAIN bam |-> [name |-> bam[n].name, len |-> bam[n].len, id |-> n]]
@@ -178,63 +173,66 @@ SplitOK(bam, list, disc, sp) ==
     /\ SP!Unmodified(reads, opt, sp.out)
     /\ SP!HistTotals(opt, sp.out, sp.rows)
     /\ SP!HistCounts(ls, opt, << >>, sp.out, sp.rows)
-W5(fs, S) == \A r \in DOMAIN fs :
-    (r \in S /\ Is(fs, r, "split", "split") /\ ListConsistent(fs[Arg(fs, r, 2)].c))
-    => SplitOK(fs[Arg(fs, r, 1)].c, fs[Arg(fs, r, 2)].c, fs[r].opt.disc, fs[r].c)
+G5(fs, r) == Is(fs, r, "split", "split") /\ ListConsistent(fs[Arg(fs, r, 2)].c)
+W5(fs, S) == \A r \in DOMAIN fs : (r \in S /\ G5(fs, r)) => SplitOK(fs[Arg(fs, r, 1)].c, fs[Arg(fs, r, 2)].c, fs[r].opt.disc, fs[r].c)
 (* per-haplotype record counts = list rows of that haplotype whose read is in the BAM (names unique) *)
 NamesUnique(bam) == \A i, j \in DOMAIN bam : bam[i].name = bam[j].name => i = j
 SplitCountsOK(bam, list, sp) ==
     \A h \in 0..2 : Len(sp.out[h + 1]) =
         Cardinality({ i \in DOMAIN list : list[i].hap = h /\ \E n \in DOMAIN bam : bam[n].name = list[i].name })
         + (IF h = 0 THEN Cardinality({ n \in DOMAIN bam : \A i \in DOMAIN list : list[i].name # bam[n].name }) ELSE 0)
-W5c(fs, S) == \A r \in DOMAIN fs :
-    (r \in S /\ Is(fs, r, "split", "split") /\ NamesUnique(fs[Arg(fs, r, 1)].c) /\ NamesUnique(fs[Arg(fs, r, 2)].c)
-     /\ Len(fs[r].c.out) = 3)
-    => SplitCountsOK(fs[Arg(fs, r, 1)].c, fs[Arg(fs, r, 2)].c, fs[r].c)
+G5c(fs, r) == /\ Is(fs, r, "split", "split") /\ NamesUnique(fs[Arg(fs, r, 1)].c) /\ NamesUnique(fs[Arg(fs, r, 2)].c)
+              /\ Len(fs[r].c.out) = 3
+W5c(fs, S) == \A r \in DOMAIN fs : (r \in S /\ G5c(fs, r)) => SplitCountsOK(fs[Arg(fs, r, 1)].c, fs[Arg(fs, r, 2)].c, fs[r].c)
 
 (* ---- W6  phasing never changes which calls are heterozygous ---- *)
 StatsIdentity(st) == \A n \in DOMAIN st.rows : st.rows[n].phased + st.rows[n].unphased + st.rows[n].singletons = st.rows[n].het
-W6(fs, S) == \A r, q \in DOMAIN fs :
-    (/\ Touches(S, {r, q}) /\ Is(fs, r, "stats", "stats") /\ Is(fs, q, "stats", "stats") /\ fs[r].opt.smp = fs[q].opt.smp
-     /\ fs[Arg(fs, r, 1)].cmd \in {"phase", "haplotagphase"} /\ Arg(fs, Arg(fs, r, 1), 1) = Arg(fs, q, 1))
-    => SameCounts(fs[r].c, fs[q].c) /\ StatsIdentity(fs[r].c)
+G6(fs, r, q) == /\ Is(fs, r, "stats", "stats") /\ Is(fs, q, "stats", "stats") /\ fs[r].opt.smp = fs[q].opt.smp
+                /\ fs[Arg(fs, r, 1)].cmd \in {"phase", "haplotagphase"} /\ Arg(fs, Arg(fs, r, 1), 1) = Arg(fs, q, 1)
+W6(fs, S) == \A r, q \in DOMAIN fs : (Touches(S, {r, q}) /\ G6(fs, r, q)) => SameCounts(fs[r].c, fs[q].c) /\ StatsIdentity(fs[r].c)
 
 (* ---- W7  unphase forgets everything phase added: all unphased descendants of one file are equal ---- *)
-W7(fs, S) == \A u, w \in DOMAIN fs :
-    (Touches(S, {u, w}) /\ Is(fs, u, "vcf", "unphase") /\ Is(fs, w, "vcf", "unphase")) => fs[u].c = fs[w].c
-W7n(fs, S) == \A u \in DOMAIN fs : (u \in S /\ Is(fs, u, "vcf", "unphase")) => ~AnyStmt(fs[u].c) /\ SameSites(fs[u].c, fs[Arg(fs, u, 1)].c)
+G7(fs, u, w) == u # w /\ Is(fs, u, "vcf", "unphase") /\ Is(fs, w, "vcf", "unphase")
+W7(fs, S) == \A u, w \in DOMAIN fs : (Touches(S, {u, w}) /\ G7(fs, u, w)) => fs[u].c = fs[w].c
+G7n(fs, u) == Is(fs, u, "vcf", "unphase")
+W7n(fs, S) == \A u \in DOMAIN fs : (u \in S /\ G7n(fs, u)) => ~AnyStmt(fs[u].c) /\ SameSites(fs[u].c, fs[Arg(fs, u, 1)].c)
 
 (* ---- W8  haplotag needs phase statements; its tags depend on (VCF, reads) only, not on old tags ---- *)
 Tags(bam) == [n \in DOMAIN bam |-> <<bam[n].name, bam[n].hp, bam[n].ps>>]
-W8a(fs, S) == \A b \in DOMAIN fs :
-    (b \in S /\ Is(fs, b, "bam", "haplotag") /\ fs[Arg(fs, b, 1)].cmd = "unphase") => \A n \in DOMAIN fs[b].c : fs[b].c[n].hp = Absent /\ fs[b].c[n].ps = Absent
-W8b(fs, S) == \A b, d \in DOMAIN fs :
-    (Touches(S, {b, d}) /\ Is(fs, b, "bam", "haplotag") /\ Is(fs, d, "bam", "haplotag") /\ Arg(fs, b, 1) = Arg(fs, d, 1))
-    => Tags(fs[b].c) = Tags(fs[d].c)
+G8a(fs, b) == Is(fs, b, "bam", "haplotag") /\ ~AnyStmt(fs[Arg(fs, b, 1)].c)
+W8a(fs, S) == \A b \in DOMAIN fs : (b \in S /\ G8a(fs, b)) => \A n \in DOMAIN fs[b].c : fs[b].c[n].hp = Absent /\ fs[b].c[n].ps = Absent
+G8b(fs, b, d) == b # d /\ Is(fs, b, "bam", "haplotag") /\ Is(fs, d, "bam", "haplotag") /\ Arg(fs, b, 1) = Arg(fs, d, 1)
+W8b(fs, S) == \A b, d \in DOMAIN fs : (Touches(S, {b, d}) /\ G8b(fs, b, d)) => Tags(fs[b].c) = Tags(fs[d].c)
 
 (* ---- W9  compare is symmetric in its inputs (all reported counts are symmetric ones) ---- *)
-W9(fs, S) == \A r, q \in DOMAIN fs :
-    (/\ Touches(S, {r, q}) /\ Is(fs, r, "cmp", "compare") /\ Is(fs, q, "cmp", "compare") /\ fs[r].opt.smp = fs[q].opt.smp
-     /\ Arg(fs, r, 1) = Arg(fs, q, 2) /\ Arg(fs, r, 2) = Arg(fs, q, 1))
-    => fs[r].c.rows = fs[q].c.rows
+G9(fs, r, q) == /\ r # q /\ Is(fs, r, "cmp", "compare") /\ Is(fs, q, "cmp", "compare") /\ fs[r].opt.smp = fs[q].opt.smp
+                /\ Arg(fs, r, 1) = Arg(fs, q, 2) /\ Arg(fs, r, 2) = Arg(fs, q, 1)
+W9(fs, S) == \A r, q \in DOMAIN fs : (Touches(S, {r, q}) /\ G9(fs, r, q)) => fs[r].c.rows = fs[q].c.rows
 
 (* ---- W10 phase -> haplotag -> unphase -> haplotagphase gives back (a part of) the same phasing
             (C17 as a sanity link; premise: error-free reads, every read used) ---- *)
 ChainOf(fs, w, f) == /\ Is(fs, w, "vcf", "haplotagphase") /\ Is(fs, f, "vcf", "phase")
                      /\ Is(fs, Arg(fs, w, 1), "vcf", "unphase") /\ Arg(fs, Arg(fs, w, 1), 1) = f
                      /\ Is(fs, Arg(fs, w, 2), "bam", "haplotag") /\ Arg(fs, Arg(fs, w, 2), 1) = f
-W10(fs, S, errfree) == \A r \in DOMAIN fs :
-    (/\ errfree /\ r \in S /\ Is(fs, r, "cmp", "compare")
-     /\ (ChainOf(fs, Arg(fs, r, 1), Arg(fs, r, 2)) \/ ChainOf(fs, Arg(fs, r, 2), Arg(fs, r, 1))))
-    => SelfClean(fs[r].c)
+G10(fs, r) == /\ Is(fs, r, "cmp", "compare")
+              /\ (ChainOf(fs, Arg(fs, r, 1), Arg(fs, r, 2)) \/ ChainOf(fs, Arg(fs, r, 2), Arg(fs, r, 1)))
+W10(fs, S, errfree) == \A r \in DOMAIN fs : (errfree /\ r \in S /\ G10(fs, r)) => SelfClean(fs[r].c)
+
+(* ... and its phase sets are phase sets of f, each inside the extent it has in f *)
+SubBlocks(sw, sf) == \A n \in DOMAIN sw.blist :
+    \E m \in DOMAIN sf.blist : /\ sf.blist[m][1] = sw.blist[n][1] /\ sf.blist[m][2] = sw.blist[n][2]
+                                /\ sf.blist[m][3] <= sw.blist[n][3] /\ sw.blist[n][4] <= sf.blist[m][4]
+                                /\ sw.blist[n][5] <= sf.blist[m][5]
+G10b(fs, r, q) == /\ Is(fs, r, "stats", "stats") /\ Is(fs, q, "stats", "stats") /\ fs[r].opt.smp = fs[q].opt.smp
+                  /\ ChainOf(fs, Arg(fs, r, 1), Arg(fs, q, 1))
+W10b(fs, S, errfree) == \A r, q \in DOMAIN fs : (errfree /\ Touches(S, {r, q}) /\ G10b(fs, r, q)) => SubBlocks(fs[r].c, fs[q].c)
 
 (* ---- W11 the encoding of the phased VCF is irrelevant for haplotag ---- *)
-W11(fs, S) == \A b, d \in DOMAIN fs :
-    (Touches(S, {b, d}) /\ Is(fs, b, "bam", "haplotag") /\ Is(fs, d, "bam", "haplotag") /\ TagPair(fs, Arg(fs, b, 1), Arg(fs, d, 1)))
-    => Tags(fs[b].c) = Tags(fs[d].c)
+G11(fs, b, d) == Is(fs, b, "bam", "haplotag") /\ Is(fs, d, "bam", "haplotag") /\ TagPair(fs, Arg(fs, b, 1), Arg(fs, d, 1))
+W11(fs, S) == \A b, d \in DOMAIN fs : (Touches(S, {b, d}) /\ G11(fs, b, d)) => Tags(fs[b].c) = Tags(fs[d].c)
 
 ClauseNames == <<"W1a", "W1b", "W2a", "W2b", "W3a", "W3b", "W3c", "W3d", "W4a", "W4b", "W5", "W5c", "W6", "W7", "W7n",
-                 "W8a", "W8b", "W9", "W10", "W11">>
+                 "W8a", "W8b", "W9", "W10", "W10b", "W11">>
 Clause(name, fs, S, errfree) ==
     CASE name = "W1a" -> W1a(fs, S) [] name = "W1b" -> W1b(fs, S)
       [] name = "W2a" -> W2a(fs, S) [] name = "W2b" -> W2b(fs, S)
@@ -246,7 +244,23 @@ Clause(name, fs, S, errfree) ==
       [] name = "W8a" -> W8a(fs, S) [] name = "W8b" -> W8b(fs, S)
       [] name = "W9" -> W9(fs, S)
       [] name = "W10" -> W10(fs, S, errfree)
+      [] name = "W10b" -> W10b(fs, S, errfree)
       [] name = "W11" -> W11(fs, S)
+Live(name, fs) ==
+    LET D == DOMAIN fs IN
+    CASE name = "W1a" -> \E r \in D : G1a(fs, r)            [] name = "W1b" -> \E r, q \in D : G1b(fs, r, q)
+      [] name = "W2a" -> \E r \in D : G2a(fs, r)            [] name = "W2b" -> \E r, q \in D : G2b(fs, r, q)
+      [] name = "W3a" -> \E p, h \in D : TagPair(fs, p, h)  [] name = "W3b" -> \E r \in D : G3b(fs, r)
+      [] name = "W3c" -> \E r, q \in D : G3c(fs, r, q)      [] name = "W3d" -> \E r, q \in D : G3d(fs, r, q)
+      [] name = "W4a" -> \E b, q \in D : G4a(fs, b, q)      [] name = "W4b" -> \E b, l \in D : G4b(fs, b, l)
+      [] name = "W5" -> \E r \in D : G5(fs, r)              [] name = "W5c" -> \E r \in D : G5c(fs, r)
+      [] name = "W6" -> \E r, q \in D : G6(fs, r, q)
+      [] name = "W7" -> \E u, w \in D : G7(fs, u, w)        [] name = "W7n" -> \E u \in D : G7n(fs, u)
+      [] name = "W8a" -> \E b \in D : G8a(fs, b)            [] name = "W8b" -> \E b, d \in D : G8b(fs, b, d)
+      [] name = "W9" -> \E r, q \in D : G9(fs, r, q)
+      [] name = "W10" -> \E r \in D : G10(fs, r)
+      [] name = "W10b" -> \E r, q \in D : G10b(fs, r, q)
+      [] name = "W11" -> \E b, d \in D : G11(fs, b, d)
 
 -----------------------------------------------------------------------------
 (* PART 2 : the design of the commands *)
